@@ -36,7 +36,8 @@ Inductive ppc :=
 | P_start | P_sel | P_pause | P_branch | P_nap | P_cleanup2 | P_stats2 | P_slow | P_slow_sel
 | P_slow_stats | P_grab | P_persist | P_mb_persist | P_mb_load | P_mb_send | P_mb_wait
 | P_direct | P_d_load | P_pip_send | P_pip_wait | P_snap | P_persisted | P_after_ev
-| P_rewatch | P_cleanup | P_err | P_closed_err | P_exit | P_done.
+| P_rewatch | P_cleanup | P_err | P_closed_err | P_exit | P_done
+| P_pause_st | P_slow_st | P_fire_ev.   (* the observable event FOLLOWS the watcher notification *)
 
 Inductive mpc :=
 | M_start | M_sel | M_plan | M_task | M_load | M_ev_start | M_send | M_wait | M_ev_intro
@@ -179,8 +180,10 @@ Definition succs_P (s : state) : list trans :=
       ++ when (wst_beq (mw s) WBuf) [blk ThP S_pers_select (set_mw s WListed)]
       ++ when (wst_beq (pw s) WFired) [blk ThP S_pers_select (set_p s P_pause)]
   | P_pause =>
-      (* NotifySatisfiedWatchers ; directory.Stats() *)
-      map (fun s' => ev ThP OP_Stats (set_p s' P_branch)) (maybe_fire_mw s)
+      (* persister.go:155-158: NotifySatisfiedWatchers FIRST (the merger may run at once),
+         then directory.Stats() — two steps, the merger's events may fall in between *)
+      map (fun s' => tau ThP (set_p s' P_pause_st)) (maybe_fire_mw s)
+  | P_pause_st => [ev ThP OP_Stats (set_p s P_branch)]
   | P_branch => [tau ThP (set_p s P_nap); tau ThP (set_p s P_cleanup2); tau ThP (set_p s P_slow)]
   | P_nap =>
       (* select { <-s.closeCh ; <-time.After ; ew := <-persisterNotifier } then return *)
@@ -194,7 +197,8 @@ Definition succs_P (s : state) : list trans :=
   | P_slow_sel =>
       when (closed s) [cl ThP S_slow_select (set_p s P_grab)]
       ++ when (wst_beq (mw s) WBuf) [blk ThP S_slow_select (set_mw (set_p s P_slow_stats) WListed)]
-  | P_slow_stats => map (fun s' => ev ThP OP_Stats (set_p s' P_slow)) (maybe_fire_mw s)
+  | P_slow_stats => map (fun s' => tau ThP (set_p s' P_slow_st)) (maybe_fire_mw s)   (* persister.go:211 *)
+  | P_slow_st => [ev ThP OP_Stats (set_p s P_slow)]                                  (* persister.go:213 *)
   | P_grab => [tau ThP (set_p s P_persist); tau ThP (set_p s P_rewatch)]
   | P_persist => [tau ThP (set_p s P_mb_persist); tau ThP (set_p s P_direct)]
   | P_mb_persist =>
@@ -213,7 +217,9 @@ Definition succs_P (s : state) : list trans :=
   | P_snap => [ev ThP OP_PersistSnap (set_p s P_persisted); tau ThP (set_p s P_err)]
   | P_persisted =>
       (* acks closed; callbacks; every persist watcher notified; fireEvent(PersisterProgress) *)
-      [ev ThP OP_EvPersisterProgress (set_p (match mw s with WListed => set_mw s WFired | _ => s end) P_after_ev)]
+      (* persister.go:121-128: the watchers are closed BEFORE the event is fired *)
+      [tau ThP (set_p (match mw s with WListed => set_mw s WFired | _ => s end) P_fire_ev)]
+  | P_fire_ev => [ev ThP OP_EvPersisterProgress (set_p s P_after_ev)]
   | P_after_ev => [tau ThP (set_p s P_sel); tau ThP (set_p s P_rewatch)]
   | P_rewatch =>
       when (closed s) [cl ThP S_NotifyUsAfter (set_p s P_exit)]
@@ -302,6 +308,7 @@ Definition ppc_idx (x : ppc) : N :=
   | P_mb_load => 13 | P_mb_send => 14 | P_mb_wait => 15 | P_direct => 16 | P_d_load => 17 | P_pip_send => 18
   | P_pip_wait => 19 | P_snap => 20 | P_persisted => 21 | P_after_ev => 22 | P_rewatch => 23 | P_cleanup => 24
   | P_err => 25 | P_closed_err => 26 | P_exit => 27 | P_done => 28
+  | P_pause_st => 29 | P_slow_st => 30 | P_fire_ev => 31
   end.
 Definition mpc_idx (x : mpc) : N :=
   match x with
@@ -315,7 +322,7 @@ Definition wst_idx (x : wst) : N := match x with WFired => 0 | WBuf => 1 | WList
 
 Definition enc (s : state) : positive :=
   N.succ_pos
-    ((((((ipc_idx (si s) * 29 + ppc_idx (sp s)) * 15 + mpc_idx (sm s)) * 6 + cpc_idx (sc s)) * 3
+    ((((((ipc_idx (si s) * 32 + ppc_idx (sp s)) * 15 + mpc_idx (sm s)) * 6 + cpc_idx (sc s)) * 3
         + wst_idx (pw s)) * 3 + wst_idx (mw s)) * 2 + (if papp s then 1 else 0))%N.
 
 Definition sset := PositiveMap.t (list state).
